@@ -211,6 +211,32 @@ if bad:
     return ob
 
 
+def handed_out(conn, chan, legit):
+    """objects of this process that the response frames hand to the peer by reference and that are not in `legit`"""
+    from rpyc.core import consts
+    out = []
+
+    def walk(boxed):
+        if type(boxed) is not tuple or len(boxed) != 2:
+            return
+        label, value = boxed
+        if label == consts.LABEL_TUPLE and type(value) is tuple:
+            for x in value:
+                walk(x)
+        elif label == consts.LABEL_REMOTE_REF:
+            try:
+                obj = conn._local_objects[tuple(value)]
+            except Exception:
+                return
+            if not any(obj is x for x in legit) and not isinstance(obj, (Token, Spy)):
+                out.append(obj)
+    for f in chan.out:
+        msg = getattr(f, "obj", None)
+        if type(msg) is tuple and len(msg) == 3 and msg[0] == consts.MSG_REPLY:
+            walk(msg[2])
+    return out
+
+
 ARG_SHAPES = ["()", "(obj,)", "(obj, name)", "(obj, name, value)", "(obj, (), ())", "(obj, name, (), ())", "(obj, obj, name)",
               "(obj, 5)", "(obj, name, name, 1, 2, ())", "(5,)", "(obj, None)", "(idpack,)", "(obj, idpack)"]
 
@@ -276,6 +302,9 @@ def ob_handlers(run, interp):
                 bad = bad or "%d response frames" % len(chan.out)
             if dict(n["other"]._local_objects._dict) != n["before_other"]:
                 bad = bad or "another connection's table was altered"
+            leaked = handed_out(n["conn"], chan, [n["spy"], n["conn"]._local_root])       # (the root object is what GETROOT is for)
+            if leaked:
+                bad = bad or "an object never lent on this connection was handed to the peer: %s" % (type(leaked[0]).__name__,)
             # attribute touches on the lent object must be permitted by the default policy for the peer's name
             cfgt = dict((k, z3.BoolVal(v) if isinstance(v, bool) else None) for k, v in DEFAULT_CONFIG.items() if isinstance(v, bool))
             cfgt["exposed_prefix"] = z3.StringVal(DEFAULT_CONFIG["exposed_prefix"])
@@ -434,7 +463,9 @@ from engine.harness import tier as _tier
 FORGED = ["builtins.str", "builtins.bytes", "enum.StrEnum", "builtins.int"]
 if _tier() == "thorough":
     FORGED = FORGED + ["builtins.tuple", "enum.IntEnum", "collections.UserString"]
-SHAPES4 = ["(obj, fname)", "(obj, fname, (), ())", "(obj, obj, fname)", "(obj, fname, value)"]
+SHAPES4 = ["(obj, fname)", "(obj, fname, (), ())", "(obj, obj, fname)", "(obj, fname, value)", "(fobj, lname)", "(fobj, lname, (), ())"]
+# names that a proxy answers locally, without asking its owner
+PROXY_LOCAL_NAMES = ["____conn__", "____id_pack__", "__class__", "__reduce_ex__", "__getattribute__", "__init__"]
 LIES = [False, True, "_private"]
 if _tier() == "thorough":
     # more lies per nested question and more reported classes
@@ -520,7 +551,14 @@ def ob_forged_names(run, interp):
             F = (consts.LABEL_REMOTE_REF, (forged, 424242, 434343))
             E = (consts.LABEL_VALUE, ())
             table = {"(obj, fname)": (R, F), "(obj, fname, (), ())": (R, F, E, E), "(obj, obj, fname)": (R, R, F), "(obj, fname, value)": (R, F, (consts.LABEL_VALUE, 5))}
-            c.notes.update(conn=conn, chan=chan, peer=peer, shape=shape, hid=hid, forged=forged)
+            lname = None
+            if shape.startswith("(fobj"):
+                # the *target* is a reference to an object of the peer's own (any reported class); the name is one the proxy
+                # answers locally
+                lname = PROXY_LOCAL_NAMES[c.choose(len(PROXY_LOCAL_NAMES), "proxy-local-name")]
+                FO = (consts.LABEL_REMOTE_REF, ("builtins.list", 515151, 525252))
+                table[shape] = (FO, (consts.LABEL_VALUE, lname)) + ((E, E) if shape.endswith("(), ())") else ())
+            c.notes.update(conn=conn, chan=chan, peer=peer, shape=shape, hid=hid, forged=forged, lname=lname, spy=spy)
             try:
                 return interp.call(Connection._dispatch_request, (conn, 7, (hid, (consts.LABEL_TUPLE, table[shape]))))
             finally:
@@ -538,6 +576,9 @@ def ob_forged_names(run, interp):
                 bad = "%s escaped the dispatcher" % type(r.exc).__name__
             if Sinks.log:
                 bad = bad or "reached %s under the default configuration" % (Sinks.log,)
+            leaked = handed_out(n["conn"], n["chan"], [n["spy"], n["conn"]._local_root])
+            if leaked:
+                bad = bad or "an object never lent on this connection was handed to the peer: %s" % (type(leaked[0]).__name__,)
             for e in c.log:
                 if e[0] in ("setattr", "delattr"):
                     bad = bad or "%s under the default configuration" % e[0]
@@ -559,8 +600,8 @@ def ob_forged_names(run, interp):
                 sig = "forged:%d:%s" % (hv, n["forged"])
                 if any(v["signature"] == sig for v in o.violations):
                     return
-                run.replay(o, sig, "%s (handler %d, args %s, reported class %s, lies %s)" % (bad, hv, n["shape"], n["forged"], n["peer"].lies),
-                           replay_forged(hv, n["shape"], n["forged"], [l for (_h, l) in n["peer"].lies]))
+                run.replay(o, sig, "%s (handler %d, args %s%s, reported class %s, lies %s)" % (bad, hv, n["shape"], " with name %r" % n["lname"] if n["lname"] else "", n["forged"], n["peer"].lies),
+                           replay_forged(hv, n["shape"], n["forged"], [l for (_h, l) in n["peer"].lies], n["lname"]))
 
         n_, incomplete = par_explore(run, o, harness, on_path, acc, split_depth=5)
         o.paths = dict(acc.counts, total=n_)
@@ -573,9 +614,10 @@ def ob_forged_names(run, interp):
     return ob
 
 
-def replay_forged(hid, shape, forged, lies):
+def replay_forged(hid, shape, forged, lies, lname=None):
     return REPLAY_HEAD + """
 hid, shape, forged, lies = %d, %r, %r, %r
+lname = %r
 INSPECT_LIE = %r
 class LyingChan(Chan):
     # the hostile peer: answers every nested request of the victim with the recorded lies
@@ -597,11 +639,26 @@ conn = Connection(VoidService(), ch)
 s = Secret(); ids = get_id_pack(s); conn._local_objects.add(ids, s)
 R = (consts.LABEL_LOCAL_REF, ids); F = (consts.LABEL_REMOTE_REF, (forged, 424242, 434343)); E = (consts.LABEL_VALUE, ())
 table = {"(obj, fname)": (R, F), "(obj, fname, (), ())": (R, F, E, E), "(obj, obj, fname)": (R, R, F), "(obj, fname, value)": (R, F, (consts.LABEL_VALUE, 5))}
+if lname is not None:
+    FO = (consts.LABEL_REMOTE_REF, ("builtins.list", 515151, 525252))
+    table[shape] = (FO, (consts.LABEL_VALUE, lname)) + ((E, E) if shape.endswith("(), ())") else ())
 bad = []
 try:
     conn._dispatch_request(7, (hid, (consts.LABEL_TUPLE, table[shape])))
 except BaseException as e:
     bad.append("escaped: %%r" %% (e,))
+def walk(boxed):
+    if type(boxed) is not tuple or len(boxed) != 2: return
+    label, value = boxed
+    if label == consts.LABEL_TUPLE and type(value) is tuple:
+        for x in value: walk(x)
+    elif label == consts.LABEL_REMOTE_REF:
+        try: obj = conn._local_objects[tuple(value)]
+        except Exception: return
+        if obj is not s and obj is not conn._local_root: bad.append("handed to the peer by reference: %%s" %% type(obj).__name__)
+for fr in ch.frames:
+    msg = brine.load(fr)
+    if msg[0] == consts.MSG_REPLY: walk(msg[2])
 allowed = lambda n: n.startswith("exposed_") or n in conn._config["safe_attrs"]
 for (kind, n) in touched:
     if kind in ("set", "del"): bad.append("%%s %%s under default config" %% (kind, n))
@@ -610,7 +667,7 @@ conn._closed = True
 print(bad)
 if bad:
     print("REPRODUCED"); sys.exit(1)
-""" % (hid, shape, forged, lies, INSPECT_LIE)
+""" % (hid, shape, forged, lies, lname, INSPECT_LIE)
 
 
 
